@@ -183,13 +183,36 @@ def _helper_array_bytes(prog, body, pv, s):
     return res, tgt
 
 
+def _local_array_bytes(body, pv, rhs):
+    """`buffer[k] = LOCAL[j]` where LOCAL is a named local byte array of this body that is filled element by element
+    (also what a helper returning such an array looks like once it is inlined): the stores into element j."""
+    m = re.fullmatch(r"(?:phi\(\d+\(0\)\.\[(\d+)\] \| )?(\w+)\[(\d+)\]\)?", rhs)
+    if not m or m.group(2) == "buffer":
+        return None
+    tgt, j = m.group(2), int(m.group(3))
+    loc = [i for i, l in enumerate(body.locals) if l.get("name") == tgt and body.ty(l["ty"])["k"] == "array"]
+    if len(loc) != 1:
+        return None
+    init_zero = False
+    for (bi, si, dd) in df.defs(body).whole.get(loc[0], []):
+        if dd[0] == "assign" and dd[1]["k"] == "repeat" and mir.op_const(dd[1]["op"]) == 0:
+            init_zero = True
+    res = []
+    if init_zero:
+        res.append(("0", None))
+    for (k2, rhs2, s2) in _byte_atoms(body, pv, tgt, only=j):
+        rhs2 = re.sub(r"phi\(\d+\(0\)\.\[%d\] \| %s\[%d\]\)" % (j, re.escape(tgt), j), "%s[%d]" % (tgt, j), rhs2)
+        res.append((rhs2, s2))
+    return (res, tgt) if len(res) > (1 if init_zero else 0) else None
+
+
 def writer_layout(prog, body):
     """list of (atom, source canonical text) for everything the serializer writes into `buffer`"""
     pv = df.Prov(body)
     out = []
     work = []
     for (k, rhs, s) in _byte_atoms(body, pv, "buffer"):
-        ha = _helper_array_bytes(prog, body, pv, s)
+        ha = _helper_array_bytes(prog, body, pv, s) or _local_array_bytes(body, pv, rhs)
         if ha is not None and ha[0]:
             for (rhs2, s2) in ha[0]:
                 # the helper's element plays the role of buffer[k]
